@@ -97,6 +97,8 @@ def op_wire(o):
         return {"op": "complete", "args": [lib.l1(x) for x in o["args"]]}
     if o["op"] == "attach":
         return {"op": "attach", "attach": attach_wire(o["attach"])}
+    if o["op"] == "hide":
+        return {"op": "hide", "path": o["path"], "hidden": o["hidden"]}
     raise ValueError(o)
 
 
@@ -190,6 +192,7 @@ def op_coq(o):
     if o["op"] == "complete": return "(OpComplete %s)" % cl([cs(x) for x in o["args"]])
     if o["op"] == "attach": return "(OpAttach %s)" % attach_coq(o["attach"])
     if o["op"] == "observe": return "OpObserve"
+    if o["op"] == "hide": return "(OpSetHidden %s %s)" % (path_coq(o["path"]), cb(o["hidden"]))
     raise ValueError(o)
 
 
@@ -375,6 +378,7 @@ def s_op(o):
     if o["op"] == "complete": return b"C" + s_list([s_str(x) for x in o["args"]])
     if o["op"] == "attach": return b"A" + s_attach(o["attach"])
     if o["op"] == "observe": return b"B"
+    if o["op"] == "hide": return b"D" + s_path(o["path"]) + s_bool(o["hidden"])
     raise ValueError(o)
 
 
